@@ -245,8 +245,10 @@ class Result:
               "known_findings_reported": [k[0] for k in self.known]}
         if not self.cov["samples"]:
             self.cov["samples"] = ["(none recorded)"]
-        os.makedirs(os.path.join(VERIF, "evidence"), exist_ok=True)
-        with open(os.path.join(VERIF, "evidence", self.prop + ".json"), "w") as f:
+        # coverage beyond the listed properties (ids X..) is kept apart from the evidence of the listed ones
+        evdir = os.path.join(VERIF, "evidence" if self.prop.startswith("C") else "extra_evidence")
+        os.makedirs(evdir, exist_ok=True)
+        with open(os.path.join(evdir, self.prop + ".json"), "w") as f:
             json.dump(ev, f, indent=1)
         # every listed (unrepaired) finding of this property is reported on every run; whether this run's
         # slice reproduced it is stated
